@@ -311,21 +311,39 @@ pub fn eval(expr: Node) -> Result<Number, Box<dyn error::Error>> {
         }
         Factorial(sub_expr) => {
             let sub_result = eval(*sub_expr)?;
-            match sub_result {
-                Number::Integer(n) => {
-                    if (0..=20).contains(&n) {
-                        let mut factorial_result = 1;
-                        for i in 2..=(n as usize) {
-                            #[cfg(feature = "verif_hooks")]
-                            crate::verif_hooks::tick_loop();
-                            factorial_result *= i as i64;
-                        }
-                        Ok(Number::Integer(factorial_result))
-                    } else {
-                        Ok(Number::Float(gamma((n as f64) + 1.0)))
+            if let Number::Integer(n) = sub_result {
+                if (0..=20).contains(&n) {
+                    let mut factorial_result = 1;
+                    for i in 2..=(n as usize) {
+                        #[cfg(feature = "verif_hooks")]
+                        crate::verif_hooks::tick_loop();
+                        factorial_result *= i as i64;
                     }
+                    return Ok(Number::Integer(factorial_result));
                 }
-                Number::Float(n) => Ok(Number::Float(gamma(n + 1.0))),
+            }
+            // same rules as eval_f64: exact product for integral values, gamma for the others
+            let x = match sub_result {
+                Number::Integer(n) => n as f64,
+                Number::Float(n) => n,
+            };
+            if x >= 0.0 {
+                if (x % 1.0) > 0.0 {
+                    Ok(Number::Float(gamma(x + 1.0)))
+                } else {
+                    let mut factorial_result = 1.0;
+                    for i in 2..=(x as usize) {
+                        factorial_result *= i as f64;
+                        if factorial_result.is_infinite() {
+                            break;
+                        }
+                    }
+                    Ok(Number::Float(factorial_result))
+                }
+            } else if (x % 1.0) == 0.0 {
+                Ok(Number::Float(f64::NAN))
+            } else {
+                Ok(Number::Float(gamma(x + 1.0)))
             }
         }
         LambertW(expr) => {
